@@ -36,6 +36,7 @@ Inductive err :=
 | EInvalidInput    (* ErrInvalidInput: MarshalBinary of a node whose forks map is nil *)
 | EMetaTooLarge    (* ErrMetadataTooLarge *)
 | ERefTooLarge     (* "node reference size > 256" *)
+| ESizeFn          (* a StoreSizeFunc callback rejected the node ("manifest store size func") *)
 | EPanic           (* Go run-time panic *)
 | EFuel            (* model ran out of fuel: never happens for the fuel the wrappers pass *)
 | EUnsupported.    (* outside the modelled JSON fragment *)
@@ -623,6 +624,57 @@ Fixpoint save (fuel : nat) (st : store) (log : list (list N)) (n : node) : save_
       end
   end.
 
+(** [Store(ctx, storeSizeFn...)]: the saver is [mantarayLoadSaver] (pkg/manifest/mantaray.go),
+    whose [Save] runs the size callbacks on [len(data)] BEFORE handing the data to the real
+    saver; a rejected node is not stored and [Save] returns a nil reference with the error, so
+    [n.ref, err = s.Save(..)] leaves [ref = nil] and the forks in memory.  The callbacks the
+    harness installs are one cumulative byte budget: [total += len(data); total > budget -> error]
+    ([budget], [total] : N). *)
+Definition save_self_cb (budget total : N) (st : store) (log : list (list N)) (n1 : node) : save_res * N :=
+  match marshal n1 with
+  | (n2, Err x) => ((n2, st, log, Some x), total)
+  | (n2, Ok bytes) =>
+      let total' := (total + N.of_nat (length bytes))%N in
+      if (budget <? total')%N then ((n2, st, log, Some ESizeFn), total')
+      else
+        let r := addr bytes in
+        ((set_forks (set_ref n2 (Some r)) None, st_put st r bytes, log ++ [bytes], None), total')
+  end.
+
+Fixpoint save_forks_cb (sv : N -> store -> list (list N) -> node -> save_res * N) (fs : forks_t)
+  (total : N) (st : store) (log : list (list N)) : (forks_t * store * list (list N) * option err) * N :=
+  match fs with
+  | [] => (([], st, log, None), total)
+  | (k, (prefix, c)) :: fs' =>
+      let '((c', st1, log1, e), t1) := sv total st log c in
+      match e with
+      | Some x => (((k, (prefix, c')) :: fs', st1, log1, Some x), t1)
+      | None =>
+          let '((fs2, st2, log2, e2), t2) := save_forks_cb sv fs' t1 st1 log1 in
+          (((k, (prefix, c')) :: fs2, st2, log2, e2), t2)
+      end
+  end.
+
+Fixpoint save_cb (fuel : nat) (budget total : N) (st : store) (log : list (list N)) (n : node) : save_res * N :=
+  match fuel with
+  | O => ((n, st, log, Some EFuel), total)
+  | S fuel' =>
+      match n_ref n with
+      | Some _ => ((n, st, log, None), total)
+      | None =>
+          match n_forks n with
+          | None => save_self_cb budget total st log n
+          | Some fs =>
+              let '((fs', st1, log1, e), t1) := save_forks_cb (save_cb fuel' budget) fs total st log in
+              let n1 := set_forks n (Some fs') in
+              match e with
+              | Some x => ((n1, st1, log1, Some x), t1)
+              | None => save_self_cb budget t1 st1 log1 n1
+              end
+          end
+      end
+  end.
+
 Fixpoint height (n : node) : nat :=
   match n with
   | Node _ _ _ _ _ _ fs =>
@@ -646,6 +698,7 @@ Inductive op :=
 | OLookup (p : list N)
 | OHasPrefix (p : list N)
 | OStore
+| OStoreCb (budget : N)          (* Store(ctx, sizeFn): cumulative byte budget callback *)
 | OReload.                          (* NewMantarayManifestReference(last stored address, ls) *)
 
 Inductive obs :=
@@ -684,6 +737,14 @@ Definition step (s : mstate) (o : op) : mstate * obs :=
       (MState r' st (ms_log s) (ms_last s), match hr with Ok b => BBool b | Err x => BErr x end)
   | OStore =>
       let '(r', st', log', er) := save (height root) st (ms_log s) root in
+      match er with
+      | Some x => (MState r' st' log' (ms_last s), BErr x)
+      | None =>
+          let a := match n_ref r' with Some a => a | None => [] end in
+          (MState r' st' log' (Some a), BRef a)
+      end
+  | OStoreCb b =>
+      let '((r', st', log', er), _) := save_cb (height root) b 0%N st (ms_log s) root in
       match er with
       | Some x => (MState r' st' log' (ms_last s), BErr x)
       | None =>
